@@ -179,6 +179,15 @@ def importDecode (c : Commit) :
     else decodeFallback c
   | none => decodeFallback c
 
+/-- `if commit.gpgsig: properties["git-gpg-signature"] = …` -/
+def importGpgsig : Option Bytes → Option PStr
+  | some g => if g ≠ [] then some ⟨.se, g⟩ else none
+  | none => none
+
+/-- `if extra_lines: properties["git-extra"] = "".join(extra_lines)` -/
+def importGitExtra (extraLines : List Bytes) : Option PStr :=
+  if extraLines ≠ [] then some ⟨.se, extraLines.flatten⟩ else none
+
 /-- the property dict built by `import_commit` -/
 def importProps (c : Commit) (implicit : Option Bytes) (author message : Option PStr)
     (extraLines : List Bytes) : Props :=
@@ -189,11 +198,9 @@ def importProps (c : Commit) (implicit : Option Bytes) (author message : Option 
     authorTimezone := if c.commitTz ≠ c.authorTz then some c.authorTz else none
     authorNegUtc := c.authorNegUtc
     commitNegUtc := c.commitNegUtc
-    gpgsig := match c.gpgsig with
-      | some g => if g ≠ [] then some ⟨.se, g⟩ else none
-      | none => none
+    gpgsig := importGpgsig c.gpgsig
     mergetags := c.mergetags.map fun t => ⟨.se, t⟩
-    gitExtra := if extraLines ≠ [] then some ⟨.se, extraLines.flatten⟩ else none
+    gitExtra := importGitExtra extraLines
     missingMessage := message.isNone }
 
 /-- `import_commit(commit, revision_id_foreign_to_bzr, strict)`; `id` is `commit.id` -/
